@@ -265,3 +265,22 @@ End Orders.
 Definition simple_line (ordp : list pname) (l : str) : Prop :=
   exists pl, parse_line ordp (trim_left is_blank l) = Ok pl /\
              (pl_type pl = LRegular \/ pl_type pl = LEmpty \/ pl_type pl = LComment).
+
+(* what a word-list file hands over (C06, whole parser): its entries, left-trimmed *)
+Definition is_regular (ordp : list pname) (l : str) : bool :=
+  match parse_line ordp (trim_left is_blank l) with
+  | Ok pl => match pl_type pl with LRegular => true | _ => false end
+  | _ => false
+  end.
+Definition text_lines (ordp : list pname) (ls : list str) : list str :=
+  map (trim_left is_blank) (filter (is_regular ordp) ls).
+(* a line the scanner gives back unchanged: no newline inside, no carriage return at the end,
+   shorter than the scanner's limit *)
+Definition clean_line (limit : N) (l : str) : Prop :=
+  ~ In 10 l /\ drop_cr l = l /\ N.of_nat (length l) < limit.
+(* a file that is found, consists of entries / comments / blank lines, with clean lines *)
+Definition good_file (ordp : list pname) (limit : N) (fs : fsys) (name c : str) : Prop :=
+  lookup_file fs name = Some c /\ Forall (simple_line ordp) (scan_lines limit c) /\
+  Forall (clean_line limit) (text_lines ordp (scan_lines limit c)).
+Definition excluded_lines (ordp : list pname) (limit : N) (cXs : list str) : list str :=
+  concat (map (fun c => text_lines ordp (scan_lines limit c)) cXs).
